@@ -20,9 +20,9 @@ import (
 // Iv is a closed interval of (virtual) instants.
 type Iv struct{ Lo, Hi time.Time }
 
-func (i Iv) Add(d time.Duration) Iv        { return Iv{i.Lo.Add(d), i.Hi.Add(d)} }
-func (i Iv) AddJ(d, j time.Duration) Iv    { return Iv{i.Lo.Add(d), i.Hi.Add(d + j)} }
-func (i Iv) String() string                { return fmt.Sprintf("[%s,%s]", ts(i.Lo), ts(i.Hi)) }
+func (i Iv) Add(d time.Duration) Iv     { return Iv{i.Lo.Add(d), i.Hi.Add(d)} }
+func (i Iv) AddJ(d, j time.Duration) Iv { return Iv{i.Lo.Add(d), i.Hi.Add(d + j)} }
+func (i Iv) String() string             { return fmt.Sprintf("[%s,%s]", ts(i.Lo), ts(i.Hi)) }
 func maxT(a, b time.Time) time.Time {
 	if a.After(b) {
 		return a
@@ -96,22 +96,23 @@ type Msg struct {
 }
 
 type Del struct {
-	Sub       *Sub
-	Msg       *Msg
-	AckID     string
-	State     DelState
-	Attempts  int
-	Lease     Iv // attempt_at lies in here
-	Exp       Iv // expires_at lies in here
-	Arr       Iv // arrival on this subscription (publish, or dead-letter forward)
-	ArrSeq    int
-	Forwarded bool // arrived by dead-letter forwarding
-	Revived   bool // made outstanding again by a seek and not delivered since
-	Wild      bool // model cannot predict this delivery any more
-	Lost      bool // a loss was already reported
-	LastDeliv Iv   // instant of the last delivery
-	LeaseWhy  string
-	DoneAt    Iv
+	Sub            *Sub
+	Msg            *Msg
+	AckID          string
+	State          DelState
+	Attempts       int
+	Lease          Iv // attempt_at lies in here
+	Exp            Iv // expires_at lies in here
+	Arr            Iv // arrival on this subscription (publish, or dead-letter forward)
+	ArrSeq         int
+	Forwarded      bool // arrived by dead-letter forwarding
+	Revived        bool // made outstanding again by a seek and not delivered since
+	Wild           bool // model cannot predict this delivery any more
+	Lost           bool // a loss was already reported
+	LastDeliv      Iv   // instant of the last delivery
+	LeaseWhy       string
+	DoneAt         Iv
+	countedExpired bool
 }
 
 func (d *Del) String() string {
@@ -152,7 +153,10 @@ func (d *Del) expiredPossible(t time.Time) bool { return !d.Exp.Lo.After(t) }
 
 // why returns "" if d is deliverable in the given certainty mode for a request
 // spanning [lo,hi]; otherwise the reason it is not.
-func (d *Del) why(c certainty, lo, hi time.Time) string {
+func (d *Del) why(c certainty, lo, hi time.Time) string { return d.whyOpt(c, lo, hi, false) }
+
+// whyOpt is why with the ordering rule optionally ignored.
+func (d *Del) whyOpt(c certainty, lo, hi time.Time, noOrder bool) string {
 	if d.State != Out {
 		return d.State.String()
 	}
@@ -177,7 +181,7 @@ func (d *Del) why(c certainty, lo, hi time.Time) string {
 			return "lease-running"
 		}
 	}
-	if d.Sub.Cfg.Ordered && d.Msg.Key != "" {
+	if d.Sub.Cfg.Ordered && d.Msg.Key != "" && !noOrder {
 		for _, p := range d.Sub.Dels {
 			if p == d || p.Msg.Key != d.Msg.Key {
 				continue
@@ -201,6 +205,14 @@ func (d *Del) why(c certainty, lo, hi time.Time) string {
 				if !(earlierArr && earlierPub) || p.Wild || p.State != Out {
 					continue
 				}
+				// how a dead-letter-forwarded copy is ordered relative to the other
+				// messages of an ordered subscription is not specified by the
+				// statement (publish order and arrival order differ); the random
+				// histories never call a violation on such a pair - a dedicated
+				// scenario (C05 "forwarded") documents what the code does
+				if p.Forwarded || d.Forwarded {
+					continue
+				}
 				if !p.expiredPossible(hi) {
 					return "blocked-by-predecessor"
 				}
@@ -209,6 +221,9 @@ func (d *Del) why(c certainty, lo, hi time.Time) string {
 	}
 	return ""
 }
+
+// dlVoid: the subscription has a dead-letter policy whose topic was deleted.
+func (s *Sub) dlVoid() bool { return s.Cfg.DLTopic != nil && !s.Cfg.DLTopic.Live }
 
 func (s *Sub) hasDL() bool { return s.Cfg.DLTopic != nil && s.Cfg.MaxAttempts > 0 }
 
